@@ -2,6 +2,7 @@ package redisemu
 
 import (
 	"fmt"
+	"math"
 	"time"
 )
 
@@ -183,6 +184,11 @@ func fnLPos(ctx *cmdContext, args map[string]any) (output respValue, err error) 
 	if hasRank {
 		if rank == 0 {
 			output.data = respErrorString("ERR RANK can't be zero: use 1 to start from the first match, 2 from the second ... or use negative to start from the end of the list")
+			return
+		}
+		if rank == math.MinInt64 {
+			// cannot be negated
+			output.data = respErrorString("ERR value is out of range")
 			return
 		}
 		if rank < 0 {
